@@ -376,6 +376,97 @@ func (c *checker) scansBy(name string) int {
 	return n
 }
 
+// genRun draws a script for controller.run: 1..6 scripted state-function calls
+// returning any state with no error / an ordinary / Canceled / DeadlineExceeded
+// error, sometimes cancelling the context, sometimes followed by a failing
+// SetIndexReport. Every DeadlineExceeded result but the first cancels the
+// context when the retry branch starts to wait, so no generated run sleeps.
+func genRun(rnd *hx.Rand) []ctrl.RunIter {
+	n := 1 + rnd.Intn(6)
+	script := make([]ctrl.RunIter, n)
+	seenDl := false
+	for i := range script {
+		it := ctrl.RunIter{Next: ctrl.StateNames[rnd.Intn(len(ctrl.StateNames))], Err: '-'}
+		if i < n-1 && rnd.Chance(2, 3) {
+			// mostly keep going
+			it.Next = ctrl.StateNames[1+rnd.Intn(len(ctrl.StateNames)-1)]
+		}
+		switch x := rnd.Intn(20); {
+		case x < 7:
+			it.Err = 'd'
+		case x < 10:
+			it.Err = 'g'
+		case x < 12:
+			it.Err = 'c'
+		}
+		if it.Err != '-' && rnd.Chance(1, 2) {
+			it.Next = "Terminal" // what every in-tree state function does
+		}
+		it.Cancel = rnd.Chance(1, 12)
+		it.PersistFails = rnd.Chance(1, 10)
+		if it.Err == 'd' {
+			it.CancelInWait = seenDl || rnd.Chance(1, 6)
+			seenDl = true
+		}
+		script[i] = it
+	}
+	return script
+}
+
+// runScript performs one scripted run and checks the statement on it: a state
+// function's error is reported, SetIndexReport's failure is reported, the retry
+// branch waits only after a DeadlineExceeded result, first for a zero duration
+// and then for jitter.
+func (c *checker) runScript(script []ctrl.RunIter) {
+	out := c.s.Run(script)
+	wit := ctrl.RunOp(script) + " => " + out
+	c.r.Case(wit, true)
+	if !strings.HasPrefix(out, "ev=") {
+		c.r.Fail("", "controller.run did not return normally: "+wit)
+		return
+	}
+	f := strings.Fields(out)
+	called, waits, ndl := 0, 0, 0
+	failedPersist := false
+	for _, e := range f {
+		switch {
+		case strings.HasPrefix(e, "ev=c:"), strings.HasPrefix(e, "c:"):
+			called++
+		case strings.HasPrefix(e, "w:"):
+			want := "w:j"
+			if waits == 0 {
+				want = "w:0"
+			}
+			if e != want && e != "ev="+want {
+				c.r.Fail("", "retry branch waits for an unexpected duration (the first wait is zero, later ones 1..5 s): "+wit)
+			}
+			waits++
+		case strings.HasPrefix(e, "p:") && strings.HasSuffix(e, ",0"):
+			failedPersist = true
+		}
+	}
+	errReturned := !strings.Contains(out, " e=nil ")
+	hard, dl := false, false
+	for i := 0; i < called && i < len(script); i++ {
+		switch script[i].Err {
+		case 'g', 'c':
+			hard = true
+		case 'd':
+			dl = true
+			ndl++
+		}
+	}
+	if waits > ndl {
+		c.r.Fail("", "retry branch waited more often than a state function returned DeadlineExceeded: "+wit)
+	}
+	switch {
+	case (hard || failedPersist) && !errReturned:
+		c.r.Fail("", "a state function / SetIndexReport failed but run returned a nil error: "+wit)
+	case dl && !errReturned && !strings.Contains(out, " er=1"):
+		c.r.Fail(FindingDeadline, "a state function returned DeadlineExceeded but run returned a nil error and a report without an error: "+wit)
+	}
+}
+
 type replayFile struct {
 	Seed uint64 `json:"seed"`
 	Tier string `json:"tier"`
@@ -439,6 +530,19 @@ func Run(cfg hx.Config) error {
 				c.faulty(sc, []ctrl.Script{{p: k1}, {q: k2}}, false)
 			}
 		}
+	}
+	// controller.run over scripted state functions: every arm of its switch and
+	// the retry / backoff path
+	c.runScript([]ctrl.RunIter{{Next: "Terminal", Err: 'd'}})                                                        // the shape of every in-tree deadline failure
+	c.runScript([]ctrl.RunIter{{Next: "FetchLayers", Err: 'd'}, {Next: "ScanLayers", Err: 'd', CancelInWait: true}}) // second wait is jitter
+	c.runScript([]ctrl.RunIter{{Next: "FetchLayers", Err: 'g'}, {Next: "ScanLayers", Err: '-'}})                     // an error with a non-Terminal next state
+	c.runScript([]ctrl.RunIter{{Next: "FetchLayers", Err: '-', PersistFails: true}})
+	if cfg.Thorough() {
+		// one run that really sleeps through a jitter wait (1..5 s)
+		c.runScript([]ctrl.RunIter{{Next: "FetchLayers", Err: 'd'}, {Next: "ScanLayers", Err: 'd'}, {Next: "Terminal", Err: '-'}})
+	}
+	for i, n := 0, cfg.N(1500, 20000); i < n && !r.Stop(); i++ {
+		c.runScript(genRun(rnd))
 	}
 	// Interleavings: the same direct checks with four scanner goroutines
 	// (LayerScanConcurrency = 4). Call numbering then depends on the schedule,
